@@ -7,41 +7,48 @@
 /* ghost tables of spec/sx.h.  In the proof they are arbitrary arrays (the
  * contracts quantify over every table that satisfies the defining equations);
  * the native replay computes them. */
-const size_t *g_sxW, *g_sxS, *g_sxD, *g_sxX, *g_sxC, *g_sxT, *g_sxE, *g_sxL;
-int g_sx_tabs;   /* 0: tables unconstrained, 1: run tables satisfy their equations, 2: E and L too */
-#if VERIF_IS_NATIVE
+const struct sx_tabs *g_sxt;
+const char *g_sx_s; size_t g_sx_n;   /* the input that the tables describe */
+int g_sx_tabs;   /* 0: tables unconstrained, 1: run tables satisfy their equations, 2: C T E L too */
+/* the tables computed from the text, last position first */
 static void sx_tables(const char *s, size_t n)
 {
-  size_t *W = calloc(SX_TAB_LEN, sizeof(size_t)), *S = calloc(SX_TAB_LEN, sizeof(size_t)),
-         *D = calloc(SX_TAB_LEN, sizeof(size_t)), *X = calloc(SX_TAB_LEN, sizeof(size_t)),
-         *C = calloc(SX_TAB_LEN, sizeof(size_t)), *T = calloc(SX_TAB_LEN, sizeof(size_t)),
-         *E = calloc(SX_TAB_LEN, sizeof(size_t)), *L = calloc(SX_TAB_LEN, sizeof(size_t));
-  g_sxW = W; g_sxS = S; g_sxD = D; g_sxX = X; g_sxC = C; g_sxT = T; g_sxE = E; g_sxL = L;
+  struct sx_tabs *t = calloc(1, sizeof *t);
+#if !VERIF_IS_NATIVE
+  ASSUME(t != NULL);
+#endif
+  g_sxt = t; g_sx_s = s; g_sx_n = n;
   g_sx_tabs = 0;
   if (n > SX_QMAX) return;
   g_sx_tabs = 2;
-  W[n] = S[n] = D[n] = X[n] = n; X[n + 1] = n + 1; L[n + 1] = SX_FAIL(n);
+  for (size_t k = 0; k < n; k++) t->CH[k] = s[k];
+  t->W[n] = t->S[n] = t->D[n] = t->X[n] = n; t->X[n + 1] = n + 1; t->L[n + 1] = SX_FAIL(n);
   for (size_t k = n; k-- > 0;) {
-    W[k] = SPEC_SX_REF_ISSPACE(s[k]) ? W[k + 1] : k;
-    S[k] = SPEC_SX_REF_ISSYMCH(s[k]) ? S[k + 1] : k;
-    D[k] = SPEC_SX_REF_ISDIGIT(s[k]) ? D[k + 1] : k;
-    X[k] = SPEC_SX_REF_ISXDIGIT(s[k]) ? X[k + 1] : k;
+    t->W[k] = SPEC_SX_REF_ISSPACE(s[k]) ? t->W[k + 1] : k;
+    t->S[k] = SPEC_SX_REF_ISSYMCH(s[k]) ? t->S[k + 1] : k;
+    t->D[k] = SPEC_SX_REF_ISDIGIT(s[k]) ? t->D[k + 1] : k;
+    t->X[k] = SPEC_SX_REF_ISXDIGIT(s[k]) ? t->X[k + 1] : k;
   }
   for (size_t k = 0; k < n; k++) {
-    C[k] = (size_t)spec_sx_looking_at(s, n, k);
-    T[k] = SX_ATOM_T(s, n, C[k], k);
+    t->C[k] = (unsigned char)spec_sx_looking_at(s, n, k);
+    t->T[k] = SX_ATOM_T(s, n, t->C[k], k);
   }
   for (size_t k = n + 1; k-- > 0;) {
-    const size_t j = W[k];
-    E[k] = SX_EXPR_END(n, j);
-    L[k] = SX_TAIL_END(n, k, j);
+    const size_t j = t->W[k];
+    t->E[k] = SX_EXPR_END(n, j);
+    t->L[k] = SX_TAIL_END(n, k, j);
   }
 }
-#define SX_TABLES(s, n) sx_tables((const char *)(s), (n));
+#if VERIF_IS_NATIVE
+#define SX_TABLES(s, n, level) sx_tables((const char *)(s), (n)); if (g_sx_tabs > (level)) g_sx_tabs = (level);
 #else
-#define SX_TABLE_(g) { size_t *t_ = malloc(SX_TAB_LEN * sizeof(size_t)); ASSUME(t_ != NULL); g = t_; }
-#define SX_TABLES(s, n) SX_TABLE_(g_sxW) SX_TABLE_(g_sxS) SX_TABLE_(g_sxD) SX_TABLE_(g_sxX) SX_TABLE_(g_sxC) SX_TABLE_(g_sxT) SX_TABLE_(g_sxE) SX_TABLE_(g_sxL) \
-  { IN(int, in_tabs) ASSUME(in_tabs >= 0 && in_tabs <= 2); g_sx_tabs = in_tabs; }
+/* level 1: the run tables only (scanners, tokenizer); level 2: all tables */
+#define SX_TABLES(s, n, level) \
+  { struct sx_tabs *t_ = malloc(sizeof *t_); ASSUME(t_ != NULL); g_sxt = t_; } \
+  { IN(int, in_tabs) ASSUME(in_tabs >= 0 && in_tabs <= (level)); g_sx_tabs = in_tabs; } \
+  g_sx_s = (const char *)(s); g_sx_n = (n); \
+  ASSUME(SX_GHOST_INVARIANT_RUNS((const char *)(s), (n))); \
+  if ((level) >= 2) ASSUME(SX_GHOST_INVARIANT_GRAMMAR((const char *)(s), (n)));
 #endif
 
 /* base target of the static-state invariants: a plain harness (no dfcc), the
@@ -124,24 +131,33 @@ void h_sx_make_symboln(void)
 }
 
 /* ---- scanners: input is an exact-size block of in_n octets ---- */
-#define SX_INPUT() \
+#define SX_INPUT_(level) \
   GHOST_HAVOC(); \
   IN(size_t, in_live) IN(size_t, in_n) IN(size_t, in_i) \
   ASSUME(in_n <= SX_NMAX); \
   IN_MEM(in_s, in_n) \
-  SX_TABLES(in_s, in_n) \
+  SX_TABLES(in_s, in_n, level) \
   g_sx_live = in_live;
+/* non-vacuity of the table-conditional clauses: the harness end is reachable
+ * with the flag fully up (tables that satisfy every equation exist) */
+#define SX_CANARY_TABS(level) if (g_sx_tabs == (level)) { VERIF_CANARY(); }
+#define SX_INPUT() SX_INPUT_(1)
+#define SX_INPUT2() SX_INPUT_(2)
 
 void h_skip_ws(void)
 {
   SX_INPUT()
   skip_ws((const char *)in_s, in_n, in_i);
+  SX_CANARY_TABS(1)
   VERIF_CANARY();
 }
 
 void h_looking_at(void)
 {
-  SX_INPUT()
+  GHOST_HAVOC();
+  IN(size_t, in_n) IN(size_t, in_i)
+  ASSUME(in_n <= SX_NMAX);
+  IN_MEM(in_s, in_n)
   ASSUME(in_i < in_n);
   looking_at((const char *)in_s, in_n, in_i);
   VERIF_CANARY();
@@ -153,6 +169,7 @@ void h_parse_symbol(void)
   ASSUME(in_i < in_n);
   size_t pos = in_i;
   parse_symbol((const char *)in_s, in_n, &pos);
+  SX_CANARY_TABS(1)
   VERIF_CANARY();
 }
 
@@ -169,6 +186,7 @@ void h_parse_integer_(void)
     CHECK(r->data.u64 == spec_sx_value((const char *)in_s, in_i + (in_hex ? 2u : 0u), pos, in_hex ? 16u : 10u),
           "value == positional value (most significant digit first) modulo 2^64");
 #endif
+  SX_CANARY_TABS(1)
   VERIF_CANARY();
 }
 
@@ -178,6 +196,7 @@ void h_parse_integer(void)
   ASSUME(in_i < in_n);
   size_t pos = in_i;
   parse_integer((const char *)in_s, in_n, &pos);
+  SX_CANARY_TABS(1)
   VERIF_CANARY();
 }
 
@@ -187,6 +206,7 @@ void h_parse_hinteger(void)
   ASSUME(in_i < in_n);
   size_t pos = in_i;
   parse_hinteger((const char *)in_s, in_n, &pos);
+  SX_CANARY_TABS(1)
   VERIF_CANARY();
 }
 
@@ -195,38 +215,43 @@ void h_sx_parse_token(void)
   SX_INPUT()
   struct sx_parse_result r = sx_parse_token((const char *)in_s, in_n, in_i);
   (void)r;
+  SX_CANARY_TABS(1)
   VERIF_CANARY();
 }
 
 void h_sx_parse_(void)
 {
-  SX_INPUT()
+  SX_INPUT2()
   struct sx_parse_result r = sx_parse_((const char *)in_s, in_n, in_i);
   (void)r;
+  SX_CANARY_TABS(2)
   VERIF_CANARY();
 }
 
 void h_sx_parse_list(void)
 {
-  SX_INPUT()
+  SX_INPUT2()
   struct sx_parse_result r = sx_parse_list((const char *)in_s, in_n, in_i);
   (void)r;
+  SX_CANARY_TABS(2)
   VERIF_CANARY();
 }
 
 void h_sx_parse(void)
 {
-  SX_INPUT()
+  SX_INPUT2()
   struct sx_parse_result r = sx_parse((const char *)in_s, in_n, in_i);
   (void)r;
+  SX_CANARY_TABS(2)
   VERIF_CANARY();
 }
 
 void h_sx_parse_stringn(void)
 {
-  SX_INPUT()
+  SX_INPUT2()
   struct sx_parse_result r = sx_parse_stringn((const char *)in_s, in_n);
   (void)r;
+  SX_CANARY_TABS(2)
   VERIF_CANARY();
 }
 
@@ -241,10 +266,11 @@ void h_sx_parse_string(void)
     if (k < in_n) ASSUME(in_s[k] != 0);
   in_s[in_n] = 0;
   g_a = in_n;
-  SX_TABLES(in_s, in_n)
+  SX_TABLES(in_s, in_n, 2)
   g_sx_live = in_live;
   struct sx_parse_result r = sx_parse_string((const char *)in_s);
   (void)r;
+  SX_CANARY_TABS(2)
   VERIF_CANARY();
 }
 
@@ -257,15 +283,18 @@ void h_tables_ranges(void)
   ASSUME(in_n <= SX_QMAX);
   IN_MEM(in_s, in_n)
   const char *s = (const char *)in_s;
-  SX_TABLES(in_s, in_n)
-#if !VERIF_IS_NATIVE
+  { struct sx_tabs *t_ = malloc(sizeof *t_); ASSUME(t_ != NULL); g_sxt = t_; }
+#if VERIF_IS_NATIVE
+  sx_tables(s, in_n);
+#else
   const size_t n = in_n;
 #define SX_BARE_RUN(R, ISC, k_) ((R)[n] == n && __CPROVER_forall { size_t k_; (k_ < SX_QMAX) ==> ((k_ < n) ==> \
-      (R)[k_] == (ISC(s[k_]) ? (R)[k_ + 1] : k_)) })
-  ASSUME(SX_BARE_RUN(g_sxW, SPEC_SX_ISSPACE, kw_));
-  ASSUME(SX_BARE_RUN(g_sxS, SPEC_SX_ISSYMCH, ks_));
-  ASSUME(SX_BARE_RUN(g_sxD, SPEC_SX_ISDIGIT, kd_));
-  ASSUME(SX_BARE_RUN(g_sxX, SPEC_SX_ISXDIGIT, kx_) && g_sxX[n + 1] == n + 1);
+      (R)[k_] == (ISC(g_sxCH[k_]) ? (R)[k_ + 1] : k_)) })
+  ASSUME(SX_CH_EQ(s, n, kh_));
+  ASSUME(SX_BARE_RUN(g_sxW, SPEC_SX_REF_ISSPACE, kw_));
+  ASSUME(SX_BARE_RUN(g_sxS, SPEC_SX_REF_ISSYMCH, ks_));
+  ASSUME(SX_BARE_RUN(g_sxD, SPEC_SX_REF_ISDIGIT, kd_));
+  ASSUME(SX_BARE_RUN(g_sxX, SPEC_SX_REF_ISXDIGIT, kx_) && g_sxX[n + 1] == n + 1);
   ASSUME(__CPROVER_forall { size_t kc_; (kc_ < SX_QMAX) ==> ((kc_ < n) ==>
         (g_sxC[kc_] == SX_CLS(s, n, kc_) && g_sxT[kc_] == SX_ATOM_T(s, n, g_sxC[kc_], kc_))) });
   ASSUME(__CPROVER_forall { size_t ke_; (ke_ < SX_QMAX + 1) ==> ((ke_ <= n) ==>
@@ -284,6 +313,52 @@ void h_tables_ranges(void)
   VERIF_CANARY();
 }
 
+/* Exact-size input block for the bounded targets.  Same meaning as IN_MEM
+ * (a heap block of exactly `len` octets with arbitrary content), but the
+ * block is allocated with a CONSTANT size in each case of a case split over
+ * len <= 24: reads of a block of symbolic size cost the solver array
+ * constraints that grow with the square of the number of reads, and the
+ * bounded targets read the input hundreds of times. */
+#if VERIF_IS_NATIVE
+#define SX_IN_MEM_SMALL(name, len) IN_MEM(name, len)
+#else
+#define SX_AC_(name, len, k) if ((len) == (k)) name = malloc(k);
+#ifdef VERIF_TRACE
+#define SX_IN_MEM_WITNESS(name, len) \
+  VERIF_W(name,len,0) VERIF_W(name,len,1) VERIF_W(name,len,2) VERIF_W(name,len,3) \
+  VERIF_W(name,len,4) VERIF_W(name,len,5) VERIF_W(name,len,6) VERIF_W(name,len,7) \
+  VERIF_W(name,len,8) VERIF_W(name,len,9) VERIF_W(name,len,10) VERIF_W(name,len,11) \
+  VERIF_W(name,len,12) VERIF_W(name,len,13) VERIF_W(name,len,14) VERIF_W(name,len,15)
+#else
+#define SX_IN_MEM_WITNESS(name, len)
+#endif
+#define SX_IN_MEM_SMALL(name, len) \
+  unsigned char *name = NULL; ASSUME((len) <= 24); \
+  SX_AC_(name,len,0) SX_AC_(name,len,1) SX_AC_(name,len,2) SX_AC_(name,len,3) SX_AC_(name,len,4) \
+  SX_AC_(name,len,5) SX_AC_(name,len,6) SX_AC_(name,len,7) SX_AC_(name,len,8) SX_AC_(name,len,9) \
+  SX_AC_(name,len,10) SX_AC_(name,len,11) SX_AC_(name,len,12) SX_AC_(name,len,13) SX_AC_(name,len,14) \
+  SX_AC_(name,len,15) SX_AC_(name,len,16) SX_AC_(name,len,17) SX_AC_(name,len,18) SX_AC_(name,len,19) \
+  SX_AC_(name,len,20) SX_AC_(name,len,21) SX_AC_(name,len,22) SX_AC_(name,len,23) SX_AC_(name,len,24) \
+  ASSUME(name != NULL); SX_IN_MEM_WITNESS(name, len)
+#endif
+
+/* tables that satisfy every equation exist for every input: the ones computed
+ * from the text (the same routine that the native replay uses) do */
+void h_tables_exist(void)
+{
+  IN(size_t, in_n)
+  ASSUME(in_n <= SX_QMAX);
+  SX_IN_MEM_SMALL(in_s, in_n)
+  const char *s = (const char *)in_s;
+  sx_tables(s, in_n);
+#if !VERIF_IS_NATIVE
+  CHECK(g_sx_tabs == 2, "tables computed");
+  CHECK(SX_GHOST_INVARIANT_RUNS(s, in_n), "computed tables satisfy the run equations");
+  CHECK(SX_GHOST_INVARIANT_GRAMMAR(s, in_n), "computed tables satisfy the grammar equations");
+#endif
+  VERIF_CANARY();
+}
+
 /* ---- value of an integer literal (tier B: up to SX_VDIGITS digits, loops
  * unwound; plain harness, no contracts, the real digit2int and the real
  * static table).  20 decimal digits cover every value below 2^64 and the
@@ -296,7 +371,7 @@ static void sx_integer_value(int hex)
   const size_t off = hex ? 2u : 0u;
   IN(size_t, in_n)
   ASSUME(in_n > off && in_n <= SX_VDIGITS + off);
-  IN_MEM(in_s, in_n)
+  SX_IN_MEM_SMALL(in_s, in_n)
   const char *s = (const char *)in_s;
   if (hex) { ASSUME(s[0] == '#' && s[1] == 'x' && SPEC_SX_ISXDIGIT(s[2])); }
   else { ASSUME(SPEC_SX_ISDIGIT(s[0])); }
@@ -414,7 +489,7 @@ static void sx_whole(int nul_terminated)
 {
   IN(size_t, in_n)
   ASSUME(in_n <= SX_BN);
-  IN_MEM(in_s, in_n + (nul_terminated ? 1u : 0u))
+  SX_IN_MEM_SMALL(in_s, in_n + (nul_terminated ? 1u : 0u))
   const char *s = (const char *)in_s;
   for (size_t k = 0; k < SX_BN; k++)
     if (k < in_n) ASSUME(SX_ALPHABET_OK(s[k]));
@@ -442,3 +517,49 @@ static void sx_whole(int nul_terminated)
 }
 void h_whole_stringn(void) { sx_whole(0); VERIF_CANARY(); }
 void h_whole_string(void) { sx_whole(1); VERIF_CANARY(); }
+
+/* the table E of spec/sx.h is the reference reader: for every short string,
+ * E[0] is where ref_expr() says the first expression ends (or both say there
+ * is none).  Links the equations that the contracts use to the grammar as
+ * written in ref_expr / ref_list_tail. */
+void h_tables_vs_reference(void)
+{
+  IN(size_t, in_n) IN(size_t, in_i)
+  ASSUME(in_n <= SX_BN && in_i <= in_n);
+  SX_IN_MEM_SMALL(in_s, in_n)
+  const char *s = (const char *)in_s;
+  for (size_t k = 0; k < SX_BN; k++)
+    if (k < in_n) ASSUME(SX_ALPHABET_OK(s[k]));
+  SX_TABLES(in_s, in_n, 2)
+  ASSUME(g_sx_tabs == 2);
+  size_t end = 0;
+  const int ref = ref_expr(s, in_n, in_i, &end, NULL, 0);
+  CHECK((ref != 0) == (g_sxE[in_i] <= in_n), "E[i] is valid exactly when the reference reader finds an expression at i");
+  CHECK(IMPLIES(ref != 0, g_sxE[in_i] == end), "E[i] is where the reference reader's expression ends");
+  VERIF_CANARY();
+}
+
+/* sx_destroy on every tree of depth <= 3 that the constructors can build
+ * (also with absent children): every block is given back exactly once (the
+ * ledger returns to its start value; a double or foreign free fails the
+ * allocator's checks), the caller's pointer is cleared. */
+static struct sx_node *sx_any_tree(unsigned depth)
+{
+  IN(int, in_kind)
+  if (depth == 0 || in_kind <= 0) { IN(uint64_t, in_val) return sx_make_integer(in_val); }
+  if (in_kind == 1) return sx_make_empty_list();
+  if (in_kind == 2) { IN(char, in_c0) char name[3] = { in_c0, 'b', 0 }; return sx_make_symbol(name); }
+  if (in_kind == 3) return NULL;
+  struct sx_node *a = sx_any_tree(depth - 1);
+  struct sx_node *d = sx_any_tree(depth - 1);
+  return sx_cons(a, d);
+}
+void h_sx_destroy_trees(void)
+{
+  const size_t base = g_sx_live;
+  struct sx_node *t = sx_any_tree(3);
+  sx_destroy(&t);
+  CHECK(t == NULL, "sx_destroy clears the caller's pointer");
+  CHECK(g_sx_live == base, "every block of the tree given back exactly once (ledger at its start value)");
+  VERIF_CANARY();
+}
